@@ -53,6 +53,14 @@ var vc07TxCounter uint32
 
 // vc07NewUniverse signs one transaction per entry of prevs (prevs[0] must be empty: the root).
 func vc07NewUniverse(name string, prevs [][]int) *vc07Universe {
+	return vc07NewUniversePrivate(name, prevs, "")
+}
+
+// vc07NewUniversePrivate: private = "no-payload" makes every non-root transaction a PRIVATE one (it carries a participant
+// list header; the nodes have no node DID, so they are non-participant relays) whose payload NO node holds; "payload-at-holder"
+// makes them private with the payload present on the nodes that start with the transaction (a node that receives one over the
+// wire never gets the payload). Convergence is about the transaction SET; payloads of private transactions are not part of it.
+func vc07NewUniversePrivate(name string, prevs [][]int, private string) *vc07Universe {
 	u := &vc07Universe{Name: name, Prevs: prevs, idx: map[hash.SHA256Hash]int{}}
 	signingTime := time.Date(2024, 1, 1, 0, 0, 0, 0, time.UTC)
 	for i, ps := range prevs {
@@ -61,10 +69,17 @@ func vc07NewUniverse(name string, prevs [][]int) *vc07Universe {
 			ptx = append(ptx, u.Txs[p])
 		}
 		num := atomic.AddUint32(&vc07TxCounter, 1)
-		tx := dag.CreateSignedTestTransaction(num, signingTime, nil, "application/verif+json", true, ptx...)
+		var pal [][]byte
+		if private != "" && i > 0 {
+			pal = [][]byte{[]byte("verif-c07 opaque participant list")}
+		}
+		tx := dag.CreateSignedTestTransaction(num, signingTime, pal, "application/verif+json", true, ptx...)
 		payload := []byte{byte(num >> 24), byte(num >> 16), byte(num >> 8), byte(num)}
 		if !hash.SHA256Sum(payload).Equals(tx.PayloadHash()) {
 			panic("payload convention of CreateSignedTestTransaction changed")
+		}
+		if private == "no-payload" && i > 0 {
+			payload = nil
 		}
 		u.Txs = append(u.Txs, tx)
 		u.Payloads = append(u.Payloads, payload)
@@ -154,6 +169,17 @@ type vc07Template struct {
 func vc07MakeTemplate(t testing.TB, dir string, u *vc07Universe, init [2][]int) *vc07Template {
 	tpl := &vc07Template{}
 	for n := 0; n < 2; n++ {
+		// large initial sets are expensive to load (one signature verification per transaction): the file for one
+		// (universe, set) is kept, e.g. for the scenario with the two sides swapped
+		key := ""
+		if len(init[n]) > 300 {
+			h := sha256.Sum256([]byte(fmt.Sprint(init[n])))
+			key = fmt.Sprintf("%p|%x", u, h[:8])
+			if b, ok := vc07TemplateCache[key]; ok {
+				tpl.bytes[n] = b
+				continue
+			}
+		}
 		path := filepath.Join(dir, fmt.Sprintf("tpl_%d_%d.db", atomic.AddInt64(&vc07FileCounter, 1), n))
 		db, err := bbolt.CreateBBoltStore(path, stoabs.WithNoSync(), stoabs.WithLockAcquireTimeout(time.Hour))
 		if err != nil {
@@ -181,9 +207,17 @@ func vc07MakeTemplate(t testing.TB, dir string, u *vc07Universe, init [2][]int) 
 		}
 		tpl.bytes[n] = b
 		_ = os.Remove(path)
+		if key != "" {
+			if len(vc07TemplateCache) > 8 {
+				vc07TemplateCache = map[string][]byte{}
+			}
+			vc07TemplateCache[key] = b
+		}
 	}
 	return tpl
 }
+
+var vc07TemplateCache = map[string][]byte{}
 
 // vc07Build creates a fresh world: copies the template files, opens them with the real constructors,
 // wires the two protocols and connects them. late[n] are added through State.Add AFTER the connection
